@@ -108,13 +108,18 @@ Names   == {"org", "sub", "com", "idn", "amp", "quo"}
    \* presentation format): query names are arbitrary octets on the wire, and
    \* these two contain characters that a JSON encoder writes as escapes.
 EscapedNames == {"amp", "quo"}
-Clients == {"plain", "cid", "cid2", "named", "v6"}
+Clients == {"plain", "cid", "cid2", "named", "v6", "roam", "roam2"}
    \* plain: 192.168.10.5, nothing else known
    \* cid  : 192.168.10.6 with ClientID kitchen-tv, persistent client "Kitchen TV"
    \* cid2 : the same address 192.168.10.6 (two DoH devices behind one NAT) with
    \*        ClientID study-pc, persistent client "Study PC"
    \* named: 10.20.30.40, persistent client "Dads-Samsung-Kindle" found by address
    \* v6   : 2001:db8::17
+   \* roam : ClientID guest-phone, which is NO persistent client's identifier, seen from
+   \*        10.20.30.40: the persistent client is found by the address ("Dads-Samsung-Kindle")
+   \* roam2: the same ClientID guest-phone seen from 192.168.10.5, where nothing is known:
+   \*        one ClientID, two addresses, two different answers of the client lookup
+   \*        (a lookup memo keyed by less than the pair confuses them; seeded change C07-17)
 Reasons == {"notfound", "allow", "block", "sb", "parental", "safesearch", "service",
             "rewrite", "rewritehosts", "rewriterule"}
 
@@ -132,7 +137,9 @@ KindTable == <<
     [name |-> "com", cli |-> "v6",    reason |-> "safesearch"],
     [name |-> "idn", cli |-> "named", reason |-> "rewriterule"],
     [name |-> "org", cli |-> "cid2",  reason |-> "parental"],
-    [name |-> "amp", cli |-> "plain", reason |-> "rewritehosts"] >>
+    [name |-> "amp", cli |-> "plain", reason |-> "rewritehosts"],
+    [name |-> "org", cli |-> "roam",  reason |-> "block"],
+    [name |-> "sub", cli |-> "roam2", reason |-> "notfound"] >>
 NKinds == Len(KindTable)
 KindOf(p, n) == ((n - 1 + p) % NKinds) + 1
 
@@ -152,23 +159,23 @@ TermTable == [
     idn_uni     |-> [n |-> {"idn"},               c |-> {}],                \* (Cyrillic) primer.rf
     idn_exact   |-> [n |-> {"idn"},               c |-> {}],                \* "(Cyrillic, upper case) PRIMER.rf"
     idn_puny    |-> [n |-> {"idn"},               c |-> {}],                \* xn--e1afmkfd
-    ip_exact    |-> [n |-> {},                    c |-> {"plain"}],         \* "192.168.10.5"
+    ip_exact    |-> [n |-> {},                    c |-> {"plain", "roam2"}],         \* "192.168.10.5"
     amp_sub     |-> [n |-> {"amp"},               c |-> {}],                \* r&d
     amp_exact   |-> [n |-> {"amp"},               c |-> {}],                \* "R&D.example.org"
     quo_sub     |-> [n |-> {"quo"},               c |-> {}],                \* x\"y
-    ip_sub      |-> [n |-> {},                    c |-> {"plain", "cid", "cid2"}],  \* 192.168.10.
+    ip_sub      |-> [n |-> {},                    c |-> {"plain", "cid", "cid2", "roam2"}],  \* 192.168.10.
     ip_shared   |-> [n |-> {},                    c |-> {"cid", "cid2"}],   \* "192.168.10.6"
     cid2_sub    |-> [n |-> {},                    c |-> {"cid2"}],          \* study
     cname2_exact |-> [n |-> {},                   c |-> {"cid2"}],          \* "study pc"
     ip_v6       |-> [n |-> {},                    c |-> {"v6"}],            \* 2001:db8
     cid_sub     |-> [n |-> {},                    c |-> {"cid"}],           \* kitchen
     cid_exact   |-> [n |-> {},                    c |-> {"cid"}],           \* "KITCHEN-tv"
-    cname_sub   |-> [n |-> {},                    c |-> {"named"}],         \* amsung
-    cname_exact |-> [n |-> {},                    c |-> {"named"}],         \* "dads-samsung-kindle"
+    cname_sub   |-> [n |-> {},                    c |-> {"named", "roam"}],         \* amsung
+    cname_exact |-> [n |-> {},                    c |-> {"named", "roam"}],         \* "dads-samsung-kindle"
     \* lower-case terms whose first letter has a third case variant (long s,
     \* Kelvin sign), against capitals inside the client name:
-    cname_s     |-> [n |-> {},                    c |-> {"named"}],         \* samsung
-    cname_k     |-> [n |-> {},                    c |-> {"named"}],         \* kindle
+    cname_s     |-> [n |-> {},                    c |-> {"named", "roam"}],         \* samsung
+    cname_k     |-> [n |-> {},                    c |-> {"named", "roam"}],         \* kindle
     nomatch     |-> [n |-> {},                    c |-> {}],                \* zzz-nothing
     \* Degenerate terms.  Read as substrings where they are not a quoted value:
     q_one       |-> [n |-> {"quo"},               c |-> {}],                \* "     (one double quote)
